@@ -9,22 +9,40 @@ use crate::runner::*;
 use h263_rs::parser::H263Reader;
 use h263_rs::H263State;
 use serde_json::{json, Map, Value};
-use std::io::Cursor;
+use std::io::Read;
 use std::sync::{Arc, Barrier};
 
 /// One decoder instance executing a history call by call.
+/// Owned byte source that hands out at most `chunk` bytes per `read` call.
+pub struct Frag {
+    data: Vec<u8>,
+    pos: usize,
+    chunk: usize,
+}
+
+impl Read for Frag {
+    fn read(&mut self, buf: &mut [u8]) -> std::io::Result<usize> {
+        let n = buf.len().min(self.chunk).min(self.data.len() - self.pos);
+        buf[..n].copy_from_slice(&self.data[self.pos..self.pos + n]);
+        self.pos += n;
+        Ok(n)
+    }
+}
+
 pub struct Instance {
     st: H263State,
     steps: Vec<Step>,
     step: usize,
     call: usize,
-    reader: Option<H263Reader<Cursor<Vec<u8>>>>,
+    reader: Option<H263Reader<Frag>>,
+    /// bytes per `read` call of the sources this instance builds (usize::MAX = contiguous)
+    pub chunk: usize,
     pub transcript: Vec<String>,
 }
 
 impl Instance {
     pub fn new(opts: u8, steps: &[Step]) -> Instance {
-        Instance { st: H263State::new(options_from_bits(opts)), steps: steps.to_vec(), step: 0, call: 0, reader: None, transcript: Vec::new() }
+        Instance { st: H263State::new(options_from_bits(opts)), steps: steps.to_vec(), step: 0, call: 0, reader: None, chunk: usize::MAX, transcript: Vec::new() }
     }
 
     pub fn done(&self) -> bool {
@@ -52,7 +70,7 @@ impl Instance {
             Step::Stream(b, c) => (b.clone(), *c),
         };
         if self.reader.is_none() {
-            self.reader = Some(H263Reader::from_source(Cursor::new(bytes)));
+            self.reader = Some(H263Reader::from_source(Frag { data: bytes, pos: 0, chunk: self.chunk.max(1) }));
             self.call = 0;
         }
         let mut reader = self.reader.take().unwrap();
@@ -121,6 +139,21 @@ fn group_case(g: &mut Gen, cfg: &PicCfg, collect: Option<&std::sync::Mutex<Vec<(
         if again != alone[i] {
             let at = again.iter().zip(alone[i].iter()).position(|(a, b)| a != b);
             return Verdict::fail(format!("history {} gives a different transcript when run a second time in the same process (first difference at call {:?})", i, at));
+        }
+    }
+    // (2b) the same bytes through a source that fragments its reads (sockets, pipes, chained
+    // buffers return short counts): the result is a function of the bytes, not of their delivery
+    let chunk = g.range(1, 9) as usize;
+    for (i, (o, s)) in hists.iter().enumerate() {
+        let mut inst = Instance::new(*o, s);
+        inst.chunk = chunk;
+        let t = inst.run_all();
+        if t != alone[i] {
+            let at = t.iter().zip(alone[i].iter()).position(|(a, b)| a != b);
+            return Verdict::fail(format!(
+                "history {} gives a different transcript when its bytes arrive in reads of at most {} bytes (first difference at call {:?}: {:?} vs {:?})",
+                i, chunk, at, at.map(|p| t[p].clone()), at.map(|p| alone[i][p].clone())
+            ));
         }
     }
     // (3) interleaved call by call on one thread, in a generated order
@@ -295,7 +328,8 @@ fn long_interleaved_suite(n: usize) -> SuiteReport {
         use crate::syntax::PicType;
         let mut victim_steps: Vec<Step> = vec![Step::Decode(tiny(PicType::I, 3, Some(100), 16))];
         for k in 0..n {
-            victim_steps.push(Step::Decode(tiny(PicType::D, (k % 251) as u8, if k % 2 == 0 { Some(200) } else { None }, 16)));
+            // mostly intra disposable pictures with values that are never the reference's; every fifth not coded
+            victim_steps.push(Step::Decode(tiny(PicType::D, (k % 251) as u8, if k % 5 != 4 { Some(150 + (k * 7 % 90) as u8) } else { None }, 16)));
         }
         victim_steps.push(Step::Decode(tiny(PicType::P, 9, None, 16)));
         let mut other_steps: Vec<Step> = vec![Step::Decode(tiny(PicType::I, 3, Some(50), 32))];
@@ -305,11 +339,26 @@ fn long_interleaved_suite(n: usize) -> SuiteReport {
         other_steps.push(Step::Decode(vec![0xFF; 12]));
         let alone_v = Instance::new(1, &victim_steps).run_all();
         let alone_o = Instance::new(3, &other_steps).run_all();
+        // the last picture of the first history is a not-coded P picture: a copy of the flat-100 intra picture
+        let flat100 = {
+            let mut st = H263State::new(options_from_bits(1));
+            let _ = decode_bytes(&mut st, &tiny(PicType::I, 9, Some(100), 16));
+            let _ = decode_bytes(&mut st, &tiny(PicType::P, 9, None, 16));
+            format!("Ok|{:016x}", last_digest(&st))
+        };
+        if alone_v.last() != Some(&flat100) {
+            acc.fail(json!({"kind":"params","long_interleaved":n}), format!("the predicted picture at the end of the long history is not the copy of its reference: {:?}, expected {}", alone_v.last(), flat100));
+            return;
+        }
         let mut v = Instance::new(1, &victim_steps);
         let mut o = Instance::new(3, &other_steps);
+        // two calls of the other instance between two of the first: a different phase than 1:1
         while !v.done() || !o.done() {
             v.advance();
             o.advance();
+            if v.transcript.len() % 3 == 0 {
+                o.advance();
+            }
         }
         acc.count_n(2 * n as u64 + 4, 2);
         for (name, got, want) in [("first", &v.transcript, &alone_v), ("second", &o.transcript, &alone_o)] {
@@ -413,7 +462,7 @@ pub fn run(ctx: &Ctx) -> i32 {
         ctx,
         reports,
         Summary {
-            rule: "Groups of 2..4 histories from the C01 generator (valid, hostile and corrupted data; own readers, streams, clean-ups; all four option sets). The transcript of a history (per call: result and digest of get_last_picture()) must be identical when it is run (1) alone, (2) again in the same process after other work, (3) with its calls interleaved with calls on the other instances in a tape-generated order on one thread, (4) for every fourth group, on 3 replicas x k real threads released together by a barrier, (5) in a second process (up to 400 groups per run are recomputed by a child process). Non-trivial = a history with >= 2 accepted and >= 1 rejected call; distinct by transcript digests.",
+            rule: "Groups of 2..4 histories from the C01 generator (valid, hostile and corrupted data; own readers, streams, clean-ups; all four option sets). The transcript of a history (per call: result and digest of get_last_picture()) must be identical when it is run (1) alone, (2) again in the same process after other work and through a source that delivers the same bytes in reads of 1..9 bytes, (3) with its calls interleaved with calls on the other instances in a tape-generated order on one thread, (4) for every fourth group, on 3 replicas x k real threads released together by a barrier, (5) in a second process (up to 400 groups per run are recomputed by a child process). Non-trivial = a history with >= 2 accepted and >= 1 rejected call; distinct by transcript digests.",
             assumptions: vec![
                 "the harness owns call-level interleaving; instruction-level interleaving inside a call is left to the OS scheduler (safe Rust rules out data races; the scan for unsafe / static mut / thread_local is reported under no_unsafe_no_static_mut)".into(),
             ],
